@@ -76,7 +76,7 @@ func genProgram(rt *rapid.T, kinds []string) (program, bool) {
 				Key:   rapid.IntRange(0, nk-1).Draw(rt, "key"),
 				Val:   rapid.IntRange(0, 9).Draw(rt, "val"),
 				Aux:   rapid.IntRange(0, 7).Draw(rt, "aux"),
-				Yield: rapid.IntRange(0, 2).Draw(rt, "yield"),
+				Yield: rapid.SampledFrom([]int{0, 0, 0, 0, 1, 2}).Draw(rt, "yield"),
 				Spin:  rapid.IntRange(0, 300).Draw(rt, "spin"),
 			}
 		}
@@ -253,7 +253,38 @@ func overlapped(recs []rec) bool {
 	return false
 }
 
+// linearizable decides whether the history has a sequential witness. Fast path:
+// the operations in order of their invocation stamps (and, failing that, of their
+// response stamps) are tried as the witness - both orders respect real time
+// (Ret(a) < Call(b) implies Call(a) < Call(b) and Ret(a) < Ret(b)), so if the model
+// accepts one of them it IS a sequential witness. Every other history, and in
+// particular every negative verdict, is decided by porcupine.
 func linearizable(st *structure, recs []rec) bool {
+	if witness(st, recs, func(a, b *rec) bool { return a.Call < b.Call }) ||
+		witness(st, recs, func(a, b *rec) bool { return a.Ret < b.Ret }) {
+		return true
+	}
+	return porcupineSays(st, recs)
+}
+
+func witness(st *structure, recs []rec, less func(a, b *rec) bool) bool {
+	order := make([]*rec, len(recs))
+	for i := range recs {
+		order[i] = &recs[i]
+	}
+	sort.Slice(order, func(i, j int) bool { return less(order[i], order[j]) })
+	state := st.model.Init()
+	for _, r := range order {
+		ok, next := st.model.Step(state, r.In, r.Out)
+		if !ok {
+			return false
+		}
+		state = next
+	}
+	return true
+}
+
+func porcupineSays(st *structure, recs []rec) bool {
 	ops := make([]porcupine.Operation, len(recs))
 	for i, r := range recs {
 		ops[i] = porcupine.Operation{ClientId: r.G, Input: r.In, Call: r.Call, Output: r.Out, Return: r.Ret}
@@ -338,6 +369,6 @@ func linProperty(t *testing.T, st *structure, quickN, thoroughN, reps int) {
 }
 
 // Tier sizes of part (a): programs per structure and repetitions per program.
-func linPrograms() int         { return 2500 }
+func linPrograms() int         { return 2000 }
 func linProgramsThorough() int { return 160000 }
-func linReps() int             { return vk.Pick(100, 100) }
+func linReps() int             { return 60 }
